@@ -6,11 +6,13 @@ the text of its trimmed form.
 import Paroxy.Proofs.HintsRound
 namespace Paroxy.Hints
 
+variable {O : CharOracle}
+
 /-- Hygiene of every line of a decorated program (before centrifugation, markers spelled freely). -/
-structure LinesOk (d : Decorated) : Prop where
-  ok : ∀ c ∈ codeLines d, OkCode c
-  whole : ∀ L ∈ wholeLabels d, Clean L
-  loose : ∀ l ∈ d, LooseOk l
+structure LinesOk (O : CharOracle) (d : Decorated) : Prop where
+  ok : ∀ c ∈ codeLines d, (OkCode O) c
+  whole : ∀ L ∈ wholeLabels d, (Clean O) L
+  loose : ∀ l ∈ d, (LooseOk O) l
 
 theorem mem_codeLines {d : Decorated} {c : CodeLine} (h : Line.code c ∈ d) : c ∈ codeLines d := by
   induction d with
@@ -41,7 +43,7 @@ theorem mem_wholeLabels {d : Decorated} {n : Nat} {L : Str} (h : Line.isolated n
       · simp [wholeLabels, ih h]
 
 theorem linesOk_of (d : Decorated)
-    (h : ((codeLines d).all okCode && (wholeLabels d).all cleanLabel && looseOk d) = true) : LinesOk d := by
+    (h : ((codeLines d).all (okCode O) && (wholeLabels d).all (cleanLabel O) && (looseOk O) d) = true) : (LinesOk O) d := by
   simp only [Bool.and_eq_true, List.all_eq_true, looseOk] at h
   obtain ⟨⟨h1, h2⟩, h3, h4⟩ := h
   refine ⟨fun c hc => okCode_of c (h1 c hc), fun L hL => clean_of L (h2 L hL), fun l hl => ⟨?_, ?_⟩⟩
@@ -56,8 +58,8 @@ theorem linesOk_of (d : Decorated)
 
 /-! ### Lines of the trimmed rendering are tight -/
 
-theorem renderHints_getLast (hs : List Hint) (hne : hs ≠ []) (hc : ∀ h ∈ hs, Clean h.label) :
-    ∀ x, (renderHints hs).getLast? = some x → isSpacePy x = false := by
+theorem renderHints_getLast (hs : List Hint) (hne : hs ≠ []) (hc : ∀ h ∈ hs, (Clean O) h.label) :
+    ∀ x, (renderHints hs).getLast? = some x → (isSpacePy O) x = false := by
   induction hs with
   | nil => exact absurd rfl hne
   | cons h t ih =>
@@ -80,8 +82,8 @@ theorem renderHints_getLast (hs : List Hint) (hne : hs ≠ []) (hc : ∀ h ∈ h
       | none => rw [hR] at hl; simp at hl
       | some y => rw [hl] at hx; simp at hx; subst hx; exact this _ hl
 
-theorem tight_renderLine (l : Line) (hc : ∀ c, l = .code c → OkCode c) (hi : ∀ n L, l = .isolated n L → Clean L) :
-    TightLine (renderLine l) := by
+theorem tight_renderLine (l : Line) (hc : ∀ c, l = .code c → (OkCode O) c) (hi : ∀ n L, l = .isolated n L → (Clean O) L) :
+    (TightLine O) (renderLine l) := by
   cases l with
   | code c =>
     have ok := hc c rfl
@@ -109,7 +111,7 @@ theorem tight_renderLine (l : Line) (hc : ∀ c, l = .code c → OkCode c) (hi :
       | none => simp at hl; exact absurd hl hL.ne
       | some y => rw [hl] at hx; simp at hx; subst hx; exact hL.nosp _ (List.mem_of_getLast? hl)
 
-theorem renderLine_isEmpty (l : Line) (hc : ∀ c, l = .code c → OkCode c) :
+theorem renderLine_isEmpty (l : Line) (hc : ∀ c, l = .code c → (OkCode O) c) :
     (renderLine l).isEmpty = isBlankLine l := by
   cases l with
   | code c =>
@@ -134,7 +136,7 @@ theorem map_dropWhile_congr {α β : Type} (f : α → β) (p : β → Bool) (q 
     · exact ih (fun y hy => h y (List.mem_cons_of_mem _ hy))
     · rfl
 
-theorem coreLines_map (d : Decorated) (hc : ∀ c ∈ codeLines d, OkCode c) :
+theorem coreLines_map (d : Decorated) (hc : ∀ c ∈ codeLines d, (OkCode O) c) :
     coreLines (d.map renderLine) = (core d).map renderLine := by
   have hp : ∀ l ∈ d, (renderLine l).isEmpty = isBlankLine l :=
     fun l hl => renderLine_isEmpty l (fun c e => hc c (mem_codeLines (e ▸ hl)))
@@ -147,8 +149,8 @@ theorem coreLines_map (d : Decorated) (hc : ∀ c ∈ codeLines d, OkCode c) :
 
 /-! ### Hygiene is insensitive to the spelling details -/
 
-theorem okCode_gap0 (c : CodeLine) (ok : OkCode c) :
-    ∀ c', gap0 (.code c) = .code c' → OkCode c' := by
+theorem okCode_gap0 (c : CodeLine) (ok : (OkCode O) c) :
+    ∀ c', gap0 (.code c) = .code c' → (OkCode O) c' := by
   intro c' h
   simp only [gap0, Line.code.injEq] at h
   subst h
@@ -184,14 +186,14 @@ theorem wholeLabels_map_gap0 (d : Decorated) : wholeLabels (d.map gap0) = wholeL
   | nil => rfl
   | cons l t ih => cases l <;> simp [gap0, wholeLabels, ih]
 
-theorem renderLineS_noNL (l : Line) (ms : MarkerStyle) (hc : ∀ c, l = .code c → OkCode c)
-    (hi : ∀ n L, l = .isolated n L → Clean L) : '\n' ∉ renderLineS (l, ms) := by
+theorem renderLineS_noNL (l : Line) (ms : MarkerStyle) (hc : ∀ c, l = .code c → (OkCode O) c)
+    (hi : ∀ n L, l = .isolated n L → (Clean O) L) : '\n' ∉ renderLineS (l, ms) := by
   have hmk : '\n' ∉ renderMarker ms := by
     simp only [renderMarker, List.mem_cons, List.mem_append, List.mem_map, List.mem_range, not_or]
-    refine ⟨by decide, by simp [List.mem_replicate], ?_, by simp [List.mem_replicate], by decide⟩
+    refine ⟨by cdec, by simp [List.mem_replicate], ?_, by simp [List.mem_replicate], by cdec⟩
     rintro ⟨k, hk, he⟩
     have : spellAt ms.caps k ≠ '\n' := by
-      interval_cases k <;> (simp only [spellAt, pletters]; cases ms.caps _ <;> decide)
+      interval_cases k <;> (simp only [spellAt, pletters]; cases ms.caps _ <;> cdec)
     exact this he
   cases l with
   | code c =>
@@ -211,13 +213,13 @@ theorem renderLineS_noNL (l : Line) (ms : MarkerStyle) (hc : ∀ c, l = .code c 
 
 /-- **Preparation of a decorated text**: normalising the markers and trimming the blank ends of
 `decorateS d` gives the trimmed text of the decorated program without its blank end lines. -/
-theorem prepare_decorateS (d : List (Line × MarkerStyle)) (hok : LinesOk (d.map Prod.fst))
+theorem prepare_decorateS (d : List (Line × MarkerStyle)) (hok : (LinesOk O) (d.map Prod.fst))
     (hne : codeLines (trimmed d) ≠ []) :
-    prepare (decorateS d) = decorate (trimmed d) := by
-  have hcode : ∀ p ∈ d, ∀ c, p.1 = .code c → OkCode c := by
+    (prepare O) (decorateS d) = decorate (trimmed d) := by
+  have hcode : ∀ p ∈ d, ∀ c, p.1 = .code c → (OkCode O) c := by
     intro p hp c hc
     exact hok.ok c (mem_codeLines (hc ▸ List.mem_map_of_mem (f := Prod.fst) hp))
-  have hiso : ∀ p ∈ d, ∀ n L, p.1 = .isolated n L → Clean L := by
+  have hiso : ∀ p ∈ d, ∀ n L, p.1 = .isolated n L → (Clean O) L := by
     intro p hp n L hc
     exact hok.whole L (mem_wholeLabels (hc ▸ List.mem_map_of_mem (f := Prod.fst) hp))
   have hdne : d ≠ [] := by
@@ -229,19 +231,19 @@ theorem prepare_decorateS (d : List (Line × MarkerStyle)) (hok : LinesOk (d.map
       obtain ⟨p, hp, rfl⟩ := hl
       obtain ⟨l0, ms⟩ := p
       exact renderLineS_noNL l0 ms (hcode _ hp) (hiso _ hp))
-  have hnorm : (d.map renderLineS).map normLine = (d.map fun p => gap0 p.1).map renderLine := by
+  have hnorm : (d.map renderLineS).map (normLine O) = (d.map fun p => gap0 p.1).map renderLine := by
     rw [List.map_map, List.map_map]
     apply List.map_congr_left
     intro p hp
     obtain ⟨l0, ms⟩ := p
     exact normLine_renderLineS l0 ms (hok.loose l0 (List.mem_map_of_mem (f := Prod.fst) hp))
-  have hok0 : ∀ c ∈ codeLines (d.map fun p => gap0 p.1), OkCode c := by
+  have hok0 : ∀ c ∈ codeLines (d.map fun p => gap0 p.1), (OkCode O) c := by
     intro c' hc'
     have : (d.map fun p => gap0 p.1) = (d.map Prod.fst).map gap0 := by simp [List.map_map, Function.comp_def]
     rw [this] at hc'
     obtain ⟨c, hc, hg⟩ := codeLines_map_gap0 _ c' hc'
     exact okCode_gap0 c (hok.ok c hc) c' hg
-  have hwl0 : ∀ L ∈ wholeLabels (d.map fun p => gap0 p.1), Clean L := by
+  have hwl0 : ∀ L ∈ wholeLabels (d.map fun p => gap0 p.1), (Clean O) L := by
     have : (d.map fun p => gap0 p.1) = (d.map Prod.fst).map gap0 := by simp [List.map_map, Function.comp_def]
     rw [this, wholeLabels_map_gap0]; exact hok.whole
   unfold prepare
